@@ -14,6 +14,10 @@ Static clauses decided (necessary conditions of C07):
          flush is the value a fresh session reads.
  LEX     text written for the database is produced with isoformat()/explicit formatting, not with strftime('%Y...'): %Y is
          not zero-padded for years below 1000 on glibc, and the readers (strptime / positional slicing) need four digits.
+ NULLMAP only a missing value reads back as None: in the readers (sql2py / dbval2val of every converter) a `return None` is never
+         decided by the *truthiness* of a decoded value (a variable assigned from json.loads(...), a conversion call, ...): an
+         empty array, empty dict, 0 or '' that was stored would come back as None.  Truthiness of the raw database value and
+         explicit `is None` tests are the accepted forms.
  WRITE   every changed value is written: in Entity._save_updated_ each iteration of the loop over the attributes whose write
          bit is set adds the attribute's columns to the UPDATE and its value to the arguments (no iteration is skipped), and the
          write path (_save_, _save_created_, _save_updated_, _update_dbvals_) never consults the converters' tolerant
@@ -110,6 +114,30 @@ def run(ctx):
                '' if not bad else '`%s` formats the year with %%Y: glibc does not zero-pad years below 1000, the stored text is then not parsed back by the '
                'reader (the value comes back as str) and sorts wrongly as text' % norm(bad[0]), node=bad[0] if bad else None, expected='isoformat()', nontrivial=bool(bad))
 
+    # ---------------------------------------------------------------- NULLMAP
+    nnm = 0
+    for f in repo.rule_funcs():
+        if f.mod not in mods or f.cls is None or f.name not in ('sql2py', 'dbval2val') or len(f.params) < 2: continue
+        nnm += 1
+        raw = f.params[1]
+        decoded = {t.id for st in walk_no_nested(f.node) if isinstance(st, ast.Assign) and isinstance(st.value, ast.Call) for t in st.targets if isinstance(t, ast.Name) and t.id != raw}
+        bad = []
+        for t in [x for x in walk_no_nested(f.node) if isinstance(x, ast.If)]:
+            rn = [r for b in t.body for r in ast.walk(b) if isinstance(r, ast.Return) and (r.value is None or (isinstance(r.value, ast.Constant) and r.value.value is None))]
+            if not rn: continue
+            # names tested by truthiness (bare name, `not name`, operands of and/or) -- not inside comparisons or calls
+            def truth_names(e):
+                if isinstance(e, ast.Name): return {e.id}
+                if isinstance(e, ast.UnaryOp) and isinstance(e.op, ast.Not): return truth_names(e.operand)
+                if isinstance(e, ast.BoolOp): return set().union(*[truth_names(v) for v in e.values])
+                return set()
+            hit = truth_names(t.test) & decoded
+            if hit: bad.append((t, sorted(hit)))
+        ctx.ob('C07-NULLMAP.only-null-reads-back-as-none', f, bad[0][0].test if bad else f.node, not bad,
+               '' if not bad else '%s.%s returns None when the decoded value `%s` is falsy: an empty array / empty document / zero that was stored reads back as None in a '
+               'fresh session' % (f.cls.name, f.name, bad[0][1][0]), node=bad[0][0] if bad else None, expected='test `is None` (or the raw database value), not the truthiness of the decoded value',
+               nontrivial=bool(bad))
+    ctx.floor('C07-NULLMAP', nnm, 15, 'reader functions (sql2py / dbval2val)')
     # ---------------------------------------------------------------- WRITE
     su = repo.fn('pony.orm.core', 'Entity._save_updated_')
     g = ctx.cg.cfg(su)
@@ -143,6 +171,7 @@ def run(ctx):
 
 
 MUTANTS = [
+    dict(id='C07-n1', file='pony/orm/dbproviders/sqlite.py', fn='SQLiteArrayConverter.dbval2val', old="        if obj is None:\n            return items\n", new="        if obj is None:\n            return items\n        if not items and converter.attr.nullable:\n            return None\n", expect='C07-NULLMAP'),
     dict(id='C07-w1', file='pony/orm/core.py', fn='Entity._save_updated_', old="            update_columns.extend(attr.columns)\n            val = obj._vals_[attr]\n", new="            val = obj._vals_[attr]\n            if val == obj._dbvals_.get(attr): continue\n            update_columns.extend(attr.columns)\n", expect='C07-WRITE.every'),
     dict(id='C07-w2', file='pony/orm/core.py', fn='Entity._save_updated_', old="                dbval = attr.converters[0].val2dbval(val, obj)\n", new="                dbval = attr.converters[0].val2dbval(val, obj)\n                same = attr.converters[0].dbvals_equal(obj._dbvals_.get(attr), dbval)\n", expect='C07-WRITE.no-tolerant'),
     dict(id='C07-m1', file='pony/orm/dbproviders/sqlite.py', fn='SQLiteTimeConverter.sql2py', old="dt = datetime.datetime.strptime(val, '%H:%M:%S')", new="dt = datetime.strptime(val, '%H:%M:%S')", expect='C07-MOD'),
